@@ -24,22 +24,30 @@ Record Hist2 (s : storage) (iss dead : list handle) : Prop := {
 
 Section with_ac.
 (** [ac]: whether a transition may clear the event logs (clear_events). Transitions with [ac = false]
-    keep or extend them, which is what "since the last clear" needs (C17). *)
-Context (ac : bool).
+    keep or extend them, which is what "since the last clear" needs (C17).
+    [wr]: whether a transition may write component values. Transitions with [wr = false] leave every
+    stored value alone (C02: creating, destroying, relocating, growing never changes them). *)
+Context (ac wr : bool).
 
-Definition same_book (s s' : storage) : Prop :=
+Definition wbook (s s' : storage) : Prop :=
   aid s' = aid s /\ cap s' = cap s /\ slots s' = slots s /\ ents s' = ents s /\
   created s' = created s /\ destroyed s' = destroyed s.
+
+Definition same_book (s s' : storage) : Prop := wbook s s' /\ cols s' = cols s.
 
 (** Slots keep their index part and their generations do not decrease (the test hook that presets
     generation counters close to the overflow boundary is such a transition when it raises them). *)
 Definition mono_book (s s' : storage) : Prop :=
   aid s' = aid s /\ cap s' = cap s /\ ents s' = ents s /\
   (forall k x, slots s !! k = Some x -> exists x', slots s' !! k = Some x' /\ s_idx x' = s_idx x /\ (s_ver x <= s_ver x')%N) /\
-  ((created s' = created s /\ destroyed s' = destroyed s) \/ (ac = true /\ created s' = [] /\ destroyed s' = [])).
+  ((created s' = created s /\ destroyed s' = destroyed s) \/ (ac = true /\ created s' = [] /\ destroyed s' = [])) /\
+  (wr = true \/ cols s' = cols s).
 
 Lemma same_book_mono s s' : same_book s s' -> mono_book s s'.
-Proof. intros (A & B & C & D & E & F). split_and!; try done; [|by left]. intros k x Hx. exists x. rewrite C. split_and!; [done|done|lia]. Qed.
+Proof. intros [(A & B & C & D & E & F) G]. split_and!; try done; [|by left|by right]. intros k x Hx. exists x. rewrite C. split_and!; [done|done|lia]. Qed.
+
+Lemma wbook_mono s s' : wr = true -> wbook s s' -> mono_book s s'.
+Proof. intros Hwr (A & B & C & D & E & F). split_and!; try done; [|by left|by left]. intros k x Hx. exists x. rewrite C. split_and!; [done|done|lia]. Qed.
 
 Inductive estep (cfg : config) : storage -> storage -> Prop :=
   | es_push s vs s' h : length vs = length (cols s) -> push cfg s vs = Ok s' h -> estep cfg s s'
@@ -263,54 +271,78 @@ Proof.
 Qed.
 
 Lemma same_book_refl s : same_book s s. Proof. done. Qed.
-Lemma same_book_trans s1 s2 s3 : same_book s1 s2 -> same_book s2 s3 -> same_book s1 s3.
+Lemma wbook_trans s1 s2 s3 : wbook s1 s2 -> wbook s2 s3 -> wbook s1 s3.
 Proof. intros (A1 & A2 & A3 & A4 & A5 & A6) (B1 & B2 & B3 & B4 & B5 & B6). split_and!; congruence. Qed.
+Lemma same_book_trans s1 s2 s3 : same_book s1 s2 -> same_book s2 s3 -> same_book s1 s3.
+Proof. intros [A A'] [B B']. split; [by eapply wbook_trans|congruence]. Qed.
+
+Lemma call_closure_ro acc : forall s i ver o s1 ds, call_closure s i ver 0%N acc = Some (o, s1, ds) -> s1 = s.
+Proof.
+  induction acc as [|a acc IH]; intros s i ver o s1 ds; cbn [call_closure]; [by intros [= _ <- _]|].
+  destruct a as [col m zst| |].
+  - destruct (cols s !! col) as [c|]; [|done]. unfold val in *. destruct (c !! i) as [v|]; [|done].
+    rewrite N.eqb_refl. cbn [negb]. rewrite andb_false_r.
+    destruct (call_closure s i ver 0%N acc) as [[[o' s2] ds']|] eqn:Hcc; [|done]. intros [= _ <- _]. by eapply IH.
+  - destruct (ents s !! i); [|done].
+    destruct (call_closure s i ver 0%N acc) as [[[o' s2] ds']|] eqn:Hcc; [|done]. intros [= _ <- _]. by eapply IH.
+  - destruct (call_closure s i ver 0%N acc) as [[[o' s2] ds']|] eqn:Hcc; [|done]. intros [= _ <- _]. by eapply IH.
+Qed.
 
 Lemma call_closure_book ad acc s i ver delta o s1 ds : wf_access ad acc -> SInv ad s -> i < len s -> in_ver ver ->
-  call_closure s i ver delta acc = Some (o, s1, ds) -> SInv ad s1 /\ same_book s s1 /\ len s1 = len s.
+  call_closure s i ver delta acc = Some (o, s1, ds) -> SInv ad s1 /\ wbook s s1 /\ len s1 = len s /\ (delta = 0%N -> s1 = s).
 Proof.
   intros Hacc HS Hi Hver Hcc.
   destruct (call_closure_ok ad acc Hacc s i ver delta HS Hi Hver) as (o' & s1' & ds' & Hcc' & HS1 & E1 & E2 & E3 & E4 & E5 & E6 & E7 & E8 & _).
-  rewrite Hcc in Hcc'. injection Hcc' as <- <- <-. split; [done|]. split; [|done].
+  rewrite Hcc in Hcc'. injection Hcc' as <- <- <-. split; [done|]. split_and!; [|done|intros ->; by eapply call_closure_ro].
   destruct HS as (_ & A & _), HS1 as (_ & A1 & _). split_and!; congruence.
 Qed.
 
 Lemma iter_arch_book ad acc ver delta break_at panic_at n : wf_access ad acc -> in_ver ver ->
   forall fuel s i ord s1 recs ds ord1 stp, SInv ad s -> len s = n ->
   iter_arch fuel s i n ver delta acc ord break_at panic_at = Some (s1, recs, ds, ord1, stp) ->
-  SInv ad s1 /\ same_book s s1.
+  SInv ad s1 /\ wbook s s1 /\ (delta = 0%N -> s1 = s).
 Proof.
   intros Hacc Hver. induction fuel as [|fuel IH]; intros s i ord s1 recs ds ord1 stp HS Hn; cbn [iter_arch].
   - by intros [= <- <- <- <- <-].
   - destruct (Nat.ltb_spec i n) as [Hi|Hi]; cbn [negb]; [|by intros [= <- <- <- <- <-]].
     destruct (negb _ || negb _); [done|].
     destruct (call_closure s i ver delta acc) as [[[o sa] dsa]|] eqn:Hcc; [|done].
-    destruct (call_closure_book ad acc s i ver delta o sa dsa Hacc HS ltac:(lia) Hver Hcc) as (HSa & Hb & Hl).
+    destruct (call_closure_book ad acc s i ver delta o sa dsa Hacc HS ltac:(lia) Hver Hcc) as (HSa & Hb & Hl & Hro).
     destruct (decide (panic_at = Some ord)); [by intros [= <- <- <- <- <-]|].
     destruct (decide (break_at = Some ord)); [by intros [= <- <- <- <- <-]|].
     destruct (iter_arch fuel sa (S i) n ver delta acc (S ord) break_at panic_at) as [[[[[s2 r2] d2] o2] st2]|] eqn:Hit; [|done].
-    intros [= <- <- <- <- <-]. destruct (IH _ _ _ _ _ _ _ _ HSa ltac:(lia) Hit) as [HS2 Hb2].
-    split; [done|by eapply same_book_trans].
+    intros [= <- <- <- <- <-]. destruct (IH _ _ _ _ _ _ _ _ HSa ltac:(lia) Hit) as (HS2 & Hb2 & Hro2).
+    split_and!; [done|by eapply wbook_trans|]. intros Hd. rewrite (Hro2 Hd). by apply Hro.
 Qed.
 
 Lemma same_book_esteps cfg ad s s' : SInv ad s' -> same_book s s' -> esteps cfg s s'.
 Proof. intros (HI & _) Hb. apply esteps_one. apply es_same; [done|by apply same_book_mono]. Qed.
 
-Lemma iter_world_wtrans cfg delta break_at panic_at archs w : Forall2 SInv archs w ->
+Lemma wbook_esteps cfg ad s s' : wr = true -> SInv ad s' -> wbook s s' -> esteps cfg s s'.
+Proof. intros Hwr (HI & _) Hb. apply esteps_one. apply es_same; [done|by apply wbook_mono]. Qed.
+
+(** The result of a query pass over one storage: written only if the closure writes and writing is allowed. *)
+Lemma pass_esteps cfg ad s s' delta : (wr = true \/ delta = 0%N) -> SInv ad s' -> wbook s s' -> (delta = 0%N -> s' = s) -> esteps cfg s s'.
+Proof.
+  intros [Hwr|Hd] HS Hb Hro; [by eapply wbook_esteps|]. rewrite (Hro Hd). constructor.
+Qed.
+
+Lemma iter_world_wtrans cfg delta break_at panic_at archs w : (wr = true \/ delta = 0%N) -> Forall2 SInv archs w ->
   forall plan ord w' recs ds stp, wf_plan archs plan -> iter_world w plan delta ord break_at panic_at = Some (w', recs, ds, stp) ->
   wtrans cfg w w'.
 Proof.
-  induction 1 as [|ad s archs w HS HW IH]; intros plan ord w' recs ds stp Hp.
+  intros Hwd. induction 1 as [|ad s archs w HS HW IH]; intros plan ord w' recs ds stp Hp.
   - destruct plan; cbn; intros [= <- <- <- <-]; constructor.
   - inversion Hp as [|? oa ? pr Hoa Hpr]; subst. destruct oa as [acc|]; cbn [iter_world].
     + pose proof HS as (HI & _).
       destruct (iter_arch (S (len s)) s 0 (len s) (version s) delta acc ord break_at panic_at) as [[[[[s1 r1] d1] o1] st1]|] eqn:Hit; [|done].
-      destruct (iter_arch_book ad acc (version s) delta break_at panic_at (len s) Hoa (proj1 (i_ver s HI)) _ _ _ _ _ _ _ _ _ HS eq_refl Hit) as [HS1 Hb].
+      destruct (iter_arch_book ad acc (version s) delta break_at panic_at (len s) Hoa (proj1 (i_ver s HI)) _ _ _ _ _ _ _ _ _ HS eq_refl Hit) as (HS1 & Hb & Hro).
+      assert (Hes : esteps cfg s s1) by (by eapply pass_esteps).
       destruct st1.
       * destruct (iter_world w pr delta o1 break_at panic_at) as [[[[w2 r2] d2] st2]|] eqn:Hiw; [|done]. intros [= <- <- <- <-].
-        constructor; [by eapply same_book_esteps|by eapply IH].
-      * intros [= <- <- <- <-]. constructor; [by eapply same_book_esteps|apply wtrans_refl].
-      * intros [= <- <- <- <-]. constructor; [by eapply same_book_esteps|apply wtrans_refl].
+        constructor; [done|by eapply IH].
+      * intros [= <- <- <- <-]. constructor; [done|apply wtrans_refl].
+      * intros [= <- <- <- <-]. constructor; [done|apply wtrans_refl].
     + destruct (iter_world w pr delta ord break_at panic_at) as [[[[w2 r2] d2] st2]|] eqn:Hiw; [|done]. intros [= <- <- <- <-].
       constructor; [constructor|by eapply IH].
 Qed.
@@ -394,14 +426,14 @@ Proof.
         (constructor; [constructor|done]).
 Qed.
 
-Lemma find_query_wtrans cfg d w plan k ky delta h0 : WInv d w -> wf_plan (wd_archs d) plan -> hpair32 h0 -> key_in d h0 ky ->
+Lemma find_query_wtrans cfg d w plan k ky delta h0 : (wr = true \/ delta = 0%N) -> WInv d w -> wf_plan (wd_archs d) plan -> hpair32 h0 -> key_in d h0 ky ->
   match find_query cfg d w plan k ky delta with
   | Ok w' _ => wtrans cfg w w'
   | Panic _ w' => w' = w
   | UB => False
   end.
 Proof.
-  intros HW Hp Hh0 Hky. pose proof (find_query_ok cfg d w plan k ky delta h0 HW Hp Hh0 Hky) as Hok.
+  intros Hwd HW Hp Hh0 Hky. pose proof (find_query_ok cfg d w plan k ky delta h0 HW Hp Hh0 Hky) as Hok.
   unfold find_query in *.
   destruct (dispatch_world d k ky) as [[a h]|p|]; [|done|done].
   destruct (plan !! a) as [[acc|]|] eqn:Hpa; [| |done].
@@ -413,8 +445,8 @@ Proof.
   destruct (call_closure s i (version s) delta acc) as [[[o s1] ds]|] eqn:Hcc; [|done].
   destruct (lookup_lt_is_Some_2 (wd_archs d) a ltac:(rewrite <- (WInv_length d w HW); by eapply lookup_lt_Some)) as [ad Had].
   pose proof (WInv_lookup d w a ad s HW Had Hs) as HS. pose proof HS as (HI & _).
-  destruct (call_closure_book ad acc s i (version s) delta o s1 ds (wf_plan_lookup _ _ _ _ _ Hp Had Hpa) HS Hi (proj1 (i_ver s HI)) Hcc) as (HS1 & Hb & _).
-  eapply upd_wtrans; [exact Hs|]. by eapply same_book_esteps.
+  destruct (call_closure_book ad acc s i (version s) delta o s1 ds (wf_plan_lookup _ _ _ _ _ Hp Had Hpa) HS Hi (proj1 (i_ver s HI)) Hcc) as (HS1 & Hb & _ & Hro).
+  eapply upd_wtrans; [exact Hs|]. by eapply pass_esteps.
 Qed.
 
 (** Presetting the generation counters (test hook) is a transition when it does not lower any slot generation. *)
@@ -424,7 +456,7 @@ Proof.
   intros HI Hsv Hav Hp Hall. destruct (preset_versions_inv s sv av s' HI Hsv Hav Hp) as (HI' & _).
   apply esteps_one, es_same; [done|]. unfold preset_versions in Hp.
   destruct (negb (len s =? 0) || N.eqb sv 0 || N.eqb av 0); [done|]. destruct (negb (cap s <=? length (slots s))); [done|].
-  injection Hp as <-. split_and!; try done; [|by left]. cbn [slots]. intros k x Hx. exists (Slot (s_idx x) sv).
+  injection Hp as <-. split_and!; try done; [|by left|by right]. cbn [slots]. intros k x Hx. exists (Slot (s_idx x) sv).
   rewrite list_lookup_fmap, Hx. split_and!; [done|done|]. cbn [s_ver].
   rewrite forallb_forall in Hall. apply N.leb_le, Hall. apply elem_of_list_In. by eapply elem_of_list_lookup_2.
 Qed.
@@ -578,7 +610,7 @@ Qed.
 Lemma clear_events_esteps cfg ad s : ac = true -> SInv ad s -> esteps cfg s (clear_events s).
 Proof.
   intros Hac HS. destruct (clear_events_SInv ad s HS) as (HI' & _). apply esteps_one, es_same; [done|].
-  split_and!; try done; [|by right]. intros k x Hx. exists x. split_and!; [done|done|lia].
+  split_and!; try done; [|by right|by right]. intros k x Hx. exists x. split_and!; [done|done|lia].
 Qed.
 
 Lemma step_clearev_trans cfg d qs st l : ac = true -> RInv d st -> Tr cfg st (step cfg d qs st (OClearEv l)).
@@ -627,16 +659,16 @@ Proof.
   1,2: destruct (to_direct cfg k s h0) as [[dh|]|p|]; try done; apply ltrans_refl.
 Qed.
 
-Lemma write_col_esteps cfg ad s col i v s' : SInv ad s -> write_col s col i v = Some s' -> esteps cfg s s'.
+Lemma write_col_esteps cfg ad s col i v s' : wr = true -> SInv ad s -> write_col s col i v = Some s' -> esteps cfg s s'.
 Proof.
-  intros HS Hw. eapply same_book_esteps; [by eapply write_col_SInv|].
+  intros Hwr HS Hw. eapply wbook_esteps; [done|by eapply write_col_SInv|].
   destruct (write_col_spec s col i v s' Hw) as (_ & _ & He & Hs & _ & Hc & _ & _ & Ha & Hcr & Hde & _). done.
 Qed.
 
-Lemma step_write_trans cfg d qs st p b k t r c v : wf_href r -> RInv d st ->
+Lemma step_write_trans cfg d qs st p b k t r c v : wr = true -> wf_href r -> RInv d st ->
   Tr cfg st (step cfg d qs st (OWrite p b k t r c v)).
 Proof.
-  intros Hr HR. unfold step; cbv beta iota. destruct (cur_world st) as [w|] eqn:Hcw; [|apply ltrans_refl]. pose proof (RInv_cur d st w HR Hcw) as HW.
+  intros Hwr Hr HR. unfold step; cbv beta iota. destruct (cur_world st) as [w|] eqn:Hcw; [|apply ltrans_refl]. pose proof (RInv_cur d st w HR Hcw) as HW.
   destruct (get_href st k r) as [h0|] eqn:Hg; [|apply ltrans_refl].
   destruct (make_key cfg d k t h0) as [kh|ka kh|obs] eqn:Hky; [| |apply ltrans_refl].
   all: cbv beta iota.
@@ -667,10 +699,10 @@ Proof.
   all: cbn [orb] in Hfin; destruct (negb (i <? len s)); [try done; apply ltrans_refl|exact Hfin].
 Qed.
 
-Lemma step_find_trans cfg d qs st q borrow k t r delta : wf_href r -> wf_ty d t -> RInv d st ->
+Lemma step_find_trans cfg d qs st q borrow k t r delta : (wr = true \/ delta = 0%N) -> wf_href r -> wf_ty d t -> RInv d st ->
   Tr cfg st (step cfg d qs st (OFind q borrow k t r delta)).
 Proof.
-  intros Hr Ht HR. unfold step; cbv beta iota. destruct (cur_world st) as [w|] eqn:Hcw; [|apply ltrans_refl]. pose proof (RInv_cur d st w HR Hcw) as HW.
+  intros Hwd Hr Ht HR. unfold step; cbv beta iota. destruct (cur_world st) as [w|] eqn:Hcw; [|apply ltrans_refl]. pose proof (RInv_cur d st w HR Hcw) as HW.
   destruct (get_href st k r) as [h0|] eqn:Hg; [|apply ltrans_refl].
   pose proof (get_href_pair32 d st k r h0 HR Hr Hg) as Hh0.
   pose proof (make_key_in cfg d k t h0 Ht) as Hmk.
@@ -680,16 +712,16 @@ Proof.
   all: destruct (qs !! q ≫= query_plan d) as [plan|] eqn:Hq; [|apply ltrans_refl].
   all: assert (Hp : wf_plan (wd_archs d) plan) by (destruct (qs !! q) as [ps|]; [|done]; by eapply query_plan_wf).
   all: match goal with |- context [find_query _ _ _ _ _ ?ky _] =>
-         pose proof (find_query_wtrans cfg d w plan k ky delta h0 HW Hp Hh0 Hmk) as Hf;
+         pose proof (find_query_wtrans cfg d w plan k ky delta h0 Hwd HW Hp Hh0 Hmk) as Hf;
          destruct (find_query cfg d w plan k ky delta) as [w' [obs ds]|p w'|]; [| |done] end.
   all: try (cbn [worlds add_directs]; by apply (ltrans_set_world cfg st w)).
   all: subst w'; apply (ltrans_set_world cfg st w); [done|apply wtrans_refl].
 Qed.
 
-Lemma step_iter_trans cfg d qs st q borrow break_at panic_at delta : RInv d st ->
+Lemma step_iter_trans cfg d qs st q borrow break_at panic_at delta : (wr = true \/ delta = 0%N) -> RInv d st ->
   Tr cfg st (step cfg d qs st (OIter q borrow break_at panic_at delta)).
 Proof.
-  intros HR. unfold step; cbv beta iota. destruct (cur_world st) as [w|] eqn:Hcw; [|apply ltrans_refl]. pose proof (RInv_cur d st w HR Hcw) as HW.
+  intros Hwd HR. unfold step; cbv beta iota. destruct (cur_world st) as [w|] eqn:Hcw; [|apply ltrans_refl]. pose proof (RInv_cur d st w HR Hcw) as HW.
   destruct (qs !! q ≫= query_plan d) as [plan|] eqn:Hq; [|apply ltrans_refl].
   assert (Hp : wf_plan (wd_archs d) plan) by (destruct (qs !! q) as [ps|]; [|done]; by eapply query_plan_wf).
   destruct (iter_world w plan delta 0 break_at panic_at) as [[[[w' recs] ds] stp]|] eqn:Hit; [|done].
@@ -706,13 +738,23 @@ Proof.
   all: cbn [worlds add_directs set_drop_in]; by apply (ltrans_set_world cfg st w).
 Qed.
 
+(** What the flags must allow for an operation: clearing for clear_events, writing for the write paths
+    and for queries whose closure writes. *)
+Definition flags_ok (o : op) : Prop :=
+  match o with
+  | OClearEv _ => ac = true
+  | OWrite _ _ _ _ _ _ _ => wr = true
+  | OFind _ _ _ _ _ delta | OIter _ _ _ _ delta => wr = true \/ delta = 0%N
+  | _ => True
+  end.
+
 (** Every step of the run language moves every storage of every persisting world by elementary
     transitions; a new world is fresh or a copy of an existing one; a dropped world stays dropped. *)
 Theorem step_trans cfg d qs st o : wf_decl d -> wf_op d o -> RInv d st -> hist_ok_step st o = true ->
-  match o with OClearEv _ => ac = true | _ => True end ->
+  flags_ok o ->
   Tr cfg st (step cfg d qs st o).
 Proof.
-  intros Hwf Ho HR Hok Hac. destruct o.
+  intros Hwf Ho HR Hok Hac. destruct o; cbn [flags_ok] in Hac.
   - by apply step_new_trans.
   - by apply step_clone_trans.
   - by apply step_switch_trans.
@@ -740,24 +782,27 @@ Qed.
 
 End with_ac.
 
+Lemma flags_ok_true o : flags_ok true true o.
+Proof. destruct o; cbn; auto. Qed.
+
 (* ---------------------------------------------------------------- weakening: a transition that may not clear is one that may *)
 
-Lemma estep_weaken ac cfg s s' : estep ac cfg s s' -> estep true cfg s s'.
+Lemma estep_weaken ac wr cfg s s' : estep ac wr cfg s s' -> estep true true cfg s s'.
 Proof.
-  intros [s0 vs s1 h Hvs Hp|s0 vs s1 h Hvs Hp|s0 k h s1 row Hk Hd|s0 s1 HI' (A & B & C & D & E)].
+  intros [s0 vs s1 h Hvs Hp|s0 vs s1 h Hvs Hp|s0 k h s1 row Hk Hd|s0 s1 HI' (A & B & C & D & E & F)].
   - by eapply es_push.
   - by eapply es_pushw.
   - by eapply es_destroy.
-  - apply es_same; [done|]. split_and!; try done. destruct E as [?|(_ & ? & ?)]; [by left|by right].
+  - apply es_same; [done|]. split_and!; try done; [|by left]. destruct E as [?|(_ & ? & ?)]; [by left|by right].
 Qed.
 
-Lemma esteps_weaken ac cfg s s' : esteps ac cfg s s' -> esteps true cfg s s'.
+Lemma esteps_weaken ac wr cfg s s' : esteps ac wr cfg s s' -> esteps true true cfg s s'.
 Proof. induction 1; [constructor|]. econstructor; [by eapply estep_weaken|done]. Qed.
 
-Lemma wtrans_weaken ac cfg w w' : wtrans ac cfg w w' -> wtrans true cfg w w'.
+Lemma wtrans_weaken ac wr cfg w w' : wtrans ac wr cfg w w' -> wtrans true true cfg w w'.
 Proof. unfold wtrans. induction 1; constructor; [by eapply esteps_weaken|done]. Qed.
 
-Lemma ltrans_weaken ac cfg l l' : ltrans ac cfg l l' -> ltrans true cfg l l'.
+Lemma ltrans_weaken ac wr cfg l l' : ltrans ac wr cfg l l' -> ltrans true true cfg l l'.
 Proof.
   intros (A & B & C & D). split_and!; try done. intros i w Hi. destruct (B i w Hi) as [?|(w' & ? & ?)]; [by left|].
   right. exists w'. split; [done|by eapply wtrans_weaken].
@@ -765,22 +810,22 @@ Qed.
 
 (* ================================================================ whole runs *)
 
-Lemma esteps_sreach cfg s s' : sreach true cfg s -> esteps true cfg s s' -> sreach true cfg s'.
-Proof. intros (s0 & H0 & Hl & Hs) Hs'. exists s0. split_and!; [done|done|by eapply (esteps_trans true)]. Qed.
+Lemma esteps_sreach cfg s s' : sreach true true cfg s -> esteps true true cfg s s' -> sreach true true cfg s'.
+Proof. intros (s0 & H0 & Hl & Hs) Hs'. exists s0. split_and!; [done|done|by eapply (esteps_trans true true)]. Qed.
 
-Lemma wtrans_trans cfg w1 w2 w3 : wtrans true cfg w1 w2 -> wtrans true cfg w2 w3 -> wtrans true cfg w1 w3.
+Lemma wtrans_trans cfg w1 w2 w3 : wtrans true true cfg w1 w2 -> wtrans true true cfg w2 w3 -> wtrans true true cfg w1 w3.
 Proof.
   unfold wtrans. intros H12. revert w3. induction H12 as [|s1 s2 w1 w2 Hs H12 IH]; intros w3 H23; inversion H23; subst; constructor.
-  - by eapply (esteps_trans true).
+  - by eapply (esteps_trans true true).
   - by apply IH.
 Qed.
 
 
 Definition RHist (cfg : config) (d : wdecl) (st : rstate) : Prop :=
-  RInv d st /\ forall i w, worlds st !! i = Some (Some w) -> Forall (sreach true cfg) w.
+  RInv d st /\ forall i w, worlds st !! i = Some (Some w) -> Forall (sreach true true cfg) w.
 
-Lemma ltrans_rhist cfg l l' : ltrans true cfg l l' ->
-  (forall i w, l !! i = Some (Some w) -> Forall (sreach true cfg) w) -> forall i w', l' !! i = Some (Some w') -> Forall (sreach true cfg) w'.
+Lemma ltrans_rhist cfg l l' : ltrans true true cfg l l' ->
+  (forall i w, l !! i = Some (Some w) -> Forall (sreach true true cfg) w) -> forall i w', l' !! i = Some (Some w') -> Forall (sreach true true cfg) w'.
 Proof.
   intros (Hlen & Hlive & Hdead & Hnew) Hall i w' Hi'. unfold world in *. destruct (decide (i < length l)) as [Hlt|Hge].
   - destruct (lookup_lt_is_Some_2 l i Hlt) as [[w|] Hi].
@@ -798,14 +843,12 @@ Proof.
   intros Hwf. induction ops as [|o ops IH]; intros st st' [HR HS] Hok; cbn [run_to ok_run] in *.
   - by intros [= <-].
   - apply andb_true_iff in Hok as [Hok Hrest]. apply andb_true_iff in Hok as [Hwfo Hho]. apply wf_opb_true in Hwfo.
-    pose proof (step_inv cfg d qs st o Hwf Hwfo HR) as Hinv. pose proof (step_trans true cfg d qs st o Hwf Hwfo HR Hho ltac:(by destruct o)) as Htr.
+    pose proof (step_inv cfg d qs st o Hwf Hwfo HR) as Hinv. pose proof (step_trans true true cfg d qs st o Hwf Hwfo HR Hho (flags_ok_true o)) as Htr.
     destruct (step cfg d qs st o) as [[st1 obs]|]; [|done]. intros Hrun Hn.
     eapply (IH st1); [split; [done|by eapply ltrans_rhist]|done|done|]. by apply (proj1 (proj2 (proj2 Htr))).
 Qed.
 
-Definition clear_ok (ac : bool) (o : op) : Prop := match o with OClearEv _ => ac = true | _ => True end.
-
-Lemma wtrans_trans_ac ac cfg w1 w2 w3 : wtrans ac cfg w1 w2 -> wtrans ac cfg w2 w3 -> wtrans ac cfg w1 w3.
+Lemma wtrans_trans_ac ac wr cfg w1 w2 w3 : wtrans ac wr cfg w1 w2 -> wtrans ac wr cfg w2 w3 -> wtrans ac wr cfg w1 w3.
 Proof.
   unfold wtrans. intros H12. revert w3. induction H12 as [|s1 s2 w1 w2 Hs H12 IH]; intros w3 H23; inversion H23; subst; constructor.
   - by eapply esteps_trans.
@@ -814,15 +857,15 @@ Qed.
 
 (** Along a run, the storages of a persisting world move by transitions; if no operation of the
     segment is clear_events, by transitions that keep or extend the event logs. *)
-Lemma run_to_rhist_gen ac cfg d qs ops : wf_decl d -> Forall (clear_ok ac) ops ->
+Lemma run_to_rhist_gen ac wr cfg d qs ops : wf_decl d -> Forall (flags_ok ac wr) ops ->
   forall st st', RHist cfg d st -> ok_run cfg d qs st ops = true ->
   run_to cfg d qs st ops = Some st' -> RHist cfg d st' /\
-  (forall i w w', worlds st !! i = Some (Some w) -> worlds st' !! i = Some (Some w') -> wtrans ac cfg w w').
+  (forall i w w', worlds st !! i = Some (Some w) -> worlds st' !! i = Some (Some w') -> wtrans ac wr cfg w w').
 Proof.
   intros Hwf Hcl. induction Hcl as [|o ops Hco Hcl IH]; intros st st' [HR HS] Hok; cbn [run_to ok_run] in *.
   - intros [= <-]. split; [done|]. intros i w w' Hw Hw'. rewrite Hw in Hw'. injection Hw' as <-. apply wtrans_refl.
   - apply andb_true_iff in Hok as [Hok Hrest]. apply andb_true_iff in Hok as [Hwfo Hho]. apply wf_opb_true in Hwfo.
-    pose proof (step_inv cfg d qs st o Hwf Hwfo HR) as Hinv. pose proof (step_trans ac cfg d qs st o Hwf Hwfo HR Hho Hco) as Htr.
+    pose proof (step_inv cfg d qs st o Hwf Hwfo HR) as Hinv. pose proof (step_trans ac wr cfg d qs st o Hwf Hwfo HR Hho Hco) as Htr.
     destruct (step cfg d qs st o) as [[st1 obs]|]; [|done]. intros Hrun.
     assert (HH1 : RHist cfg d st1) by (split; [done|eapply ltrans_rhist; [by eapply ltrans_weaken|done]]).
     destruct (IH st1 st' HH1 Hrest Hrun) as [HH' Hpath]. split; [done|].
@@ -834,15 +877,15 @@ Qed.
 
 Lemma run_to_rhist cfg d qs ops : wf_decl d -> forall st st', RHist cfg d st -> ok_run cfg d qs st ops = true ->
   run_to cfg d qs st ops = Some st' -> RHist cfg d st' /\
-  (forall i w w', worlds st !! i = Some (Some w) -> worlds st' !! i = Some (Some w') -> wtrans true cfg w w').
+  (forall i w w', worlds st !! i = Some (Some w) -> worlds st' !! i = Some (Some w') -> wtrans true true cfg w w').
 Proof.
-  intros Hwf. apply run_to_rhist_gen; [done|]. apply Forall_forall. intros o _. by destruct o.
+  intros Hwf. apply run_to_rhist_gen; [done|]. apply Forall_forall. intros o _. apply flags_ok_true.
 Qed.
 
 Lemma rs0_rhist cfg d : RHist cfg d rs0.
 Proof. split; [apply rs0_inv|]. intros i w Hi. by destruct i. Qed.
 
-Lemma wtrans_lookup cfg w w' a s s' : wtrans true cfg w w' -> w !! a = Some s -> w' !! a = Some s' -> esteps true cfg s s'.
+Lemma wtrans_lookup cfg w w' a s s' : wtrans true true cfg w w' -> w !! a = Some s -> w' !! a = Some s' -> esteps true true cfg s s'.
 Proof. intros Ht Hs Hs'. by eapply (Forall2_lookup_lr _ _ _ _ _ _ Ht). Qed.
 
 (** C01 for whole histories of the run language (any number of worlds, archetypes, creations,
@@ -870,8 +913,8 @@ Proof.
   destruct (run_to_rhist cfg d qs ops1 Hd rs0 st1 (rs0_rhist cfg d) Hok1 R1) as [HH1 _].
   destruct (run_to_rhist cfg d qs ops2 Hd st1 st2 HH1 Hok2 R2) as [HH2 P12].
   destruct (run_to_rhist cfg d qs ops3 Hd st2 st3 HH2 Hok3 R3) as [HH3 P23].
-  assert (Hr1 : sreach true cfg s1). { destruct HH1 as [_ HS]. eapply Forall_lookup_1; [exact (HS i w1 W1)|exact S1]. }
-  eapply (stale_forever true cfg s1 s2 s3 e Hw Hr1 Hk He1); [|done|].
+  assert (Hr1 : sreach true true cfg s1). { destruct HH1 as [_ HS]. eapply Forall_lookup_1; [exact (HS i w1 W1)|exact S1]. }
+  eapply (stale_forever true true cfg s1 s2 s3 e Hw Hr1 Hk He1); [|done|].
   - eapply wtrans_lookup; [exact (P12 i w1 w2 W1 W2)|done|done].
   - eapply wtrans_lookup; [exact (P23 i w2 w3 W2 W3)|done|done].
 Qed.
@@ -890,7 +933,7 @@ Lemma run_two_points cfg d qs ops1 ops2 st1 st2 i a w1 w2 s1 s2 :
   hist_case cfg d qs (ops1 ++ ops2) = true ->
   run_to cfg d qs rs0 ops1 = Some st1 -> run_to cfg d qs st1 ops2 = Some st2 ->
   worlds st1 !! i = Some (Some w1) -> worlds st2 !! i = Some (Some w2) -> w1 !! a = Some s1 -> w2 !! a = Some s2 ->
-  wrapping cfg = false /\ sreach true cfg s1 /\ esteps true cfg s1 s2.
+  wrapping cfg = false /\ sreach true true cfg s1 /\ esteps true true cfg s1 s2.
 Proof.
   unfold hist_case. intros Hc R1 R2 W1 W2 S1 S2.
   apply andb_true_iff in Hc as [Hc Hok]. apply andb_true_iff in Hc as [Hw Hd]. apply negb_true_iff in Hw. apply wf_declb_true in Hd.
@@ -912,7 +955,7 @@ Theorem run_create_fresh cfg d qs ops1 ops2 st1 st2 i a w1 w2 s1 s2 e vs s3 h :
 Proof.
   intros Hc R1 R2 W1 W2 S1 S2 He Hvs Hp.
   destruct (run_two_points cfg d qs ops1 ops2 st1 st2 i a w1 w2 s1 s2 Hc R1 R2 W1 W2 S1 S2) as (Hw & Hr & Hs).
-  by eapply (created_never_seen_before true cfg s1 s2 vs s3 h e).
+  by eapply (created_never_seen_before true true cfg s1 s2 vs s3 h e).
 Qed.
 
 (** C01, acceptance: a handle that was stored at an earlier point is accepted by the slot lookup at a
@@ -927,8 +970,8 @@ Theorem run_accepted_iff_stored cfg d qs ops1 ops2 st1 st2 i a w1 w2 s1 s2 e :
 Proof.
   intros Hc R1 R2 W1 W2 S1 S2 Hk He.
   destruct (run_two_points cfg d qs ops1 ops2 st1 st2 i a w1 w2 s1 s2 Hc R1 R2 W1 W2 S1 S2) as (Hw & Hr & Hs).
-  destruct (sreach_hist2 true cfg s1 Hw Hr) as (HI1 & iss1 & dead1 & H1).
-  destruct (esteps_hist2 true cfg s1 s2 iss1 dead1 Hw HI1 H1 Hs) as (HI2 & iss2 & dead2 & H2 & S12 & _).
+  destruct (sreach_hist2 true true cfg s1 Hw Hr) as (HI1 & iss1 & dead1 & H1).
+  destruct (esteps_hist2 true true cfg s1 s2 iss1 dead1 Hw HI1 H1 Hs) as (HI2 & iss2 & dead2 & H2 & S12 & _).
   assert (Hiss : e ∈ iss2). { apply S12. apply elem_of_list_lookup in He as (j & Hj). exact (h_stored s1 iss1 (h2_hist _ _ _ H1) j e Hj). }
   pose proof (issued_accepted_iff_stored cfg s2 iss2 e HI2 (h2_hist _ _ _ H2) Hiss Hk) as Hiff.
   split.
